@@ -12,10 +12,10 @@ INVARIANT CommitIdsDistinct
 PROPERTY Rollback
 PROPERTY CountersMonotone
 """
-STEP_TEXT = {'PUSHNAT': 'PUSH nat 7', 'PUSHOPT': 'PUSH (option nat) (Some 1)', 'PUSHSTR': 'PUSH string "k"', 'EMPTYBM': 'EMPTY_BIG_MAP string nat', 'UPDATE': 'UPDATE',
+STEP_TEXT = {'PUSHNAT': 'PUSH nat 7', 'PUSHOPT': 'PUSH (option nat) (Some 1)', 'PUSHNONE': 'PUSH (option nat) None', 'PUSHSTR': 'PUSH string "k"', 'EMPTYBM': 'EMPTY_BIG_MAP string nat', 'UPDATE': 'UPDATE',
              'BEGIN': 'BEGIN Unit {}', 'CDR': 'CDR', 'NILOP': 'NIL operation', 'PAIR': 'PAIR', 'COMMIT': 'COMMIT', 'DROP': 'DROP', 'DROPALL': 'DROP_ALL',
              'STORAGE': 'storage (big_map string nat)', 'PARAMBM': 'parameter (big_map string nat)', 'BEGINPTR': 'BEGIN 5 {}'}
-STEPS = {'push': ['PUSHNAT'], 'newbm': ['EMPTYBM'], 'newbm2': ['EMPTYBM', 'PUSHOPT', 'PUSHSTR', 'UPDATE'], 'upd': ['PUSHOPT', 'PUSHSTR', 'UPDATE'], 'begin': ['BEGIN'],
+STEPS = {'push': ['PUSHNAT'], 'newbm': ['EMPTYBM'], 'newbm2': ['EMPTYBM', 'PUSHOPT', 'PUSHSTR', 'UPDATE'], 'upd': ['PUSHOPT', 'PUSHSTR', 'UPDATE'], 'del': ['PUSHNONE', 'PUSHSTR', 'UPDATE'], 'begin': ['BEGIN'],
          'commit': ['CDR', 'PUSHOPT', 'PUSHSTR', 'UPDATE', 'NILOP', 'PAIR', 'COMMIT'], 'drop': ['DROP'], 'dropall': ['DROPALL'], 'storage': ['STORAGE'], 'parambm': ['PARAMBM'], 'beginptr': ['BEGINPTR']}
 
 
@@ -55,9 +55,22 @@ def item_abs(item):
     return {'nat': ('nat',), 'option': ('opt',), 'string': ('str',), 'list': ('ops',)}.get(prim, (prim,))
 
 
+def bm_contents(item):
+    """local contents of every big_map inside a stack item: (id, bindings, pending removals)"""
+    out = []
+    def walk(x):
+        if getattr(x, 'prim', None) == 'big_map':
+            out.append((x.ptr, sorted((json.dumps(k.to_micheline_value(), sort_keys=True), json.dumps(v.to_micheline_value(), sort_keys=True) if v is not None else None) for k, v in x.items),
+                        sorted(json.dumps(k.to_micheline_value(), sort_keys=True) for k in getattr(x, 'removed_keys', []))))
+        for y in getattr(x, 'items', []) if getattr(x, 'prim', None) in ('pair', 'list') else []:
+            walk(y)
+    walk(item)
+    return tuple(out)
+
+
 def observe(interp):
     ctx = interp.context
-    return {'stack': tuple(item_abs(x) for x in interp.stack.items), 'protected': getattr(interp.stack, 'protected', 0), 'tmp': ctx.tmp_big_map_index, 'alloc': ctx.alloc_big_map_index,
+    return {'bm_contents': tuple(bm_contents(x) for x in interp.stack.items), 'stack': tuple(item_abs(x) for x in interp.stack.items), 'protected': getattr(interp.stack, 'protected', 0), 'tmp': ctx.tmp_big_map_index, 'alloc': ctx.alloc_big_map_index,
             'orig': ctx.origination_index, 'big_maps': dict(ctx.big_maps)}
 
 
@@ -112,7 +125,7 @@ def compare(ctx, st):
     # (2) after every surviving cell the session with failing cells equals the session without them
     surv = [o for (c, fp), o in zip(hist, with_f) if fp == -1]
     for k, (a, b) in enumerate(zip(surv, without)):
-        for field in ('stack', 'protected', 'tmp', 'alloc', 'orig', 'big_maps', 'commit'):
+        for field in ('stack', 'protected', 'bm_contents', 'tmp', 'alloc', 'orig', 'big_maps', 'commit'):
             if a[field] != b[field]:
                 ctx.mismatch('C22:differs-from-failure-free-session:%s' % field,
                              '%s: after surviving cell #%d, %s = %r with the failing cells, %r without them' % (desc, k + 1, field, a[field], b[field]), case)
@@ -124,7 +137,7 @@ def compare(ctx, st):
     prev = None
     for (c, fp), o in zip(hist, with_f):
         if fp != -1 and prev is not None:
-            for field in ('stack', 'protected', 'tmp', 'alloc', 'orig', 'big_maps'):
+            for field in ('stack', 'protected', 'bm_contents', 'tmp', 'alloc', 'orig', 'big_maps'):
                 if o[field] != prev[field]:
                     ctx.mismatch('C22:failing-cell-changed:%s' % field, '%s: failing cell %r changed %s from %r to %r' % (desc, cell_text(c, fp), field, prev[field], o[field]), case)
                     ok = False
@@ -145,14 +158,14 @@ def compare(ctx, st):
 
 
 def run(ctx):
-    ctx.rule = ('sessions of up to N cells over the alphabet push / EMPTY_BIG_MAP / EMPTY_BIG_MAP+UPDATE / UPDATE / BEGIN / COMMIT (CDR..UPDATE..PAIR ; COMMIT) / DROP / DROP_ALL / storage '
+    ctx.rule = ('sessions of up to N cells over the alphabet push / EMPTY_BIG_MAP / EMPTY_BIG_MAP+UPDATE / UPDATE (bind) / UPDATE (remove) / BEGIN / COMMIT (CDR..UPDATE..PAIR ; COMMIT) / DROP / DROP_ALL / storage '
                 'declaration, each cell either clean or with a failure spliced in before its first step, in the middle or after its last step (at most F failing cells; the failure is a plain FAILWITH, a FAILWITH inside a DIP / DIP 2 body, or a stack underflow inside a DIP body that has already dropped items). '
                 'Leg A: TLC checks AsIfNeverRan (state = replay of the surviving cells), Rollback, CountersMonotone, CommitIdsDistinct. Leg B: each session runs in a fresh Interpreter '
                 'with and without its failing cells; after every surviving cell the stack (big_map ids), tmp/alloc/origination counters, big_map registry and COMMIT lazy diffs must '
                 'agree, failing cells must change nothing, and the final state must equal the model; non-trivial = session has a failing cell')
     ctx.assumptions = ['stack items are abstracted to their kind and big_map identifier', 'sessions start with parameter unit / storage (big_map string nat) declared']
     n, f = (3, 2) if ctx.quick else (4, 2)
-    keep = 3 if ctx.quick else 4      # sessions of the maximal length are sampled 1/keep (seeded); shorter ones are all replayed
+    keep = 4 if ctx.quick else 5      # sessions of the maximal length are sampled 1/keep (seeded); shorter ones are all replayed
     r = ctx.tlc('Repl', CFG % (n, f), dump=True, timeout=1500, coverage=True)
     ctx.require_no_violation(r, 'Repl')
     ctx.require_coverage(r, ['Cell'])
@@ -197,6 +210,6 @@ META = {
              'enumerates every session up to the bound with failures at every chosen position and checks that the state always equals the replay of the surviving cells. Every '
              'session is run in pytezos twice (with and without its failing cells) and compared after every surviving cell, and against the model at the end.'),
     'design_ref': 'DESIGN.md section 5 C22, A.4',
-    'note': 'Trusted: abstraction of stack items (C22.py item_abs), cell texts. Bounds: 3 (4) cells, at most 2 failing cells, failure positions {first, middle, last}, stack <= 3; sessions of the maximal length are replayed as a seeded 1/3 (1/4) sample, shorter ones exhaustively.',
+    'note': 'Trusted: abstraction of stack items (C22.py item_abs), cell texts. Bounds: 3 (4) cells, at most 2 failing cells, failure positions {first, middle, last}, stack <= 3; sessions of the maximal length are replayed as a seeded 1/4 (1/5) sample, shorter ones exhaustively.',
     'technique': 'TLA+ session model with rollback action property, TLC exhaustive; differential replay of sessions with/without failing cells in the real Interpreter + comparison with the model',
 }
